@@ -9,6 +9,32 @@ from .. import gen as G
 from . import c11
 
 
+def exotic(rng, placed):
+    """gitignore forms beyond the five model classes, aimed at existing paths."""
+    out = []
+    paths = sorted(placed)
+    for _ in range(rng.randint(1, 3)):
+        p = rng.choice(paths)
+        parts = p.split("/")
+        k = rng.random()
+        if k < 0.35:
+            # exclude a directory (or built-in excluded one), re-include one file in it
+            d = parts[0] if len(parts) > 1 else rng.choice(("build", "tests", "src"))
+            out.append(d if rng.random() < 0.5 else d + "/*")
+            out.append("!" + p)
+        elif k < 0.5:
+            out.append("!" + p)
+        elif k < 0.65:
+            out.append("**/" + parts[-1])
+        elif k < 0.8:
+            out.append(parts[0] + "/**" if len(parts) > 1 else "**/*" + parts[-1][-3:])
+        elif k < 0.9:
+            out.append("/" + p)
+        else:
+            out.append(parts[-1][:-1] + "?")
+    return out
+
+
 def gen(i, R, tier):
     rng = stream(R, "world")
     sw = stream(R, "swarm")
@@ -17,11 +43,16 @@ def gen(i, R, tier):
         "walk_policy": sw.choice(("shuffled", "reversed", "sorted")),
         "channels": sw.sample(("yml", "cli", "gitignore"), sw.randint(0, 2)),
         "bad_contents": sw.random() < 0.6,
+        # the differential needs no model of pattern semantics, so a share of runs uses
+        # gitignore forms outside the five classes (negation, **, ?, leading /)
+        "exotic_patterns": sw.random() < 0.3,
     }
     ops, placed = G.base_tree(rng, 3, 9, p_bad=0.3 if swarm["bad_contents"] else 0.0, long_bias=0.5,
                               weird=0.1, extras=0.7)
     for ch in swarm["channels"]:
         pats = list(dict.fromkeys(c11.pattern(rng, placed) for _ in range(rng.randint(1, 2))))
+        if swarm["exotic_patterns"]:
+            pats += exotic(rng, placed)
         ops.append({"op": {"yml": "set_yml", "cli": "set_cli", "gitignore": "set_gitignore"}[ch], "patterns": pats})
     ops.append({"op": "scan", "nonce": G.nonce(rng), "spelling": "dot"})
     paths = sorted(placed)
